@@ -233,7 +233,7 @@ func mutateStream(r *simkit.Run, orig, other []byte) (out []byte, kind string, s
 		}
 		return a, b
 	}
-	switch t.Weighted([]int{4, 4, 2, 2, 3, 2, 2}) {
+	switch t.Weighted([]int{4, 4, 2, 2, 3, 2, 2, 7}) {
 	case 0: // truncation at any offset; a third of the time inside the 4-byte trailer
 		kind = "truncate"
 		cut := t.Intn(n)
@@ -276,7 +276,7 @@ func mutateStream(r *simkit.Run, orig, other []byte) (out []byte, kind string, s
 		kind = "foreign"
 		out = append([]byte(nil), other...)
 		return out, kind, true
-	default: // header of this slot, body of the other slot
+	case 6: // header of this slot, body of the other slot
 		kind = "graft"
 		h := 8 + t.Intn(24)
 		if h > n {
@@ -286,6 +286,26 @@ func mutateStream(r *simkit.Run, orig, other []byte) (out []byte, kind string, s
 			h = len(other)
 		}
 		out = append(append([]byte(nil), orig[:h]...), other[h:]...)
+	default:
+		// One bit inside a tape-chosen *kind of field* (every field class is hit equally
+		// often, however few bytes it has), usually re-sealed: the outer checksum then
+		// passes and the inner validation of exactly that field is what must hold.
+		classes := streamFieldClasses(orig)
+		if len(classes) == 0 {
+			kind = "bitflip"
+			out = append([]byte(nil), orig...)
+			out[t.Intn(n)] ^= 1 << uint(t.Intn(8))
+			break
+		}
+		cl := classes[t.Intn(len(classes))]
+		sp := cl.spans[t.Intn(len(cl.spans))]
+		kind = "fieldflip-" + cl.name
+		out = append([]byte(nil), orig...)
+		out[sp[0]+t.Intn(sp[1]-sp[0])] ^= 1 << uint(t.Intn(8))
+		if cl.name != "trailer" && t.Chance(2, 3) {
+			return reseal(out), kind, true
+		}
+		return out, kind, false
 	}
 	if kind != "truncate" && t.Chance(1, 5) {
 		out = reseal(out)
